@@ -99,6 +99,9 @@ def build_expression(node, variable_hook, operator_mapping):  # noqa: C901
         left_expr = build_expression(node.left, variable_hook, operator_mapping)
         for right_op, right in zip(node.ops, node.comparators):  # noqa: B905  # strict=True requires 3.10+
             right_expr = build_expression(right, variable_hook, operator_mapping)
+            if type(right_op) not in operator_mapping:
+                # `is`, `is not`, `in`, `not in`: valid Python, not part of the guard grammar
+                raise ValueError(f"Unsupported comparison operator: {right_op.__class__.__name__}")
             operator_fn = operator_mapping[type(right_op)]
             expression = operator_fn(left_expr, right_expr)
             left_expr = right_expr
